@@ -257,6 +257,21 @@ func renderSTLRow(runs []stlRun, teletext, spaceAround bool) ([]byte, bool) {
 				dh = r.DoubleH
 			}
 			if !started {
+				if len(r.Text)%3 == 0 {
+					// the style codes of the first run ahead of the start box (they hold from where they stand)
+					if r.Italic != it {
+						out = append(out, map[bool]byte{true: 0x80, false: 0x81}[r.Italic])
+						it = r.Italic
+					}
+					if r.Underline != un {
+						out = append(out, map[bool]byte{true: 0x82, false: 0x83}[r.Underline])
+						un = r.Underline
+					}
+					if r.Box != bx {
+						out = append(out, map[bool]byte{true: 0x84, false: 0x85}[r.Box])
+						bx = r.Box
+					}
+				}
 				out = append(out, 0x0b, 0x0b)
 				started = true
 			}
